@@ -46,13 +46,13 @@ CANDIDATES = {
         "design": "5/C03",
     },
     "C05": {
-        "text": "P level: Resizer::resize_typed with symbolic source AND symbolic old destination buffer; after Ok the destination rectangle equals the composed specification of the two passes (which never reads the old destination, so a stale pixel is a counterexample) and every component outside the rectangle - surroundings of a mutable cropped view, spare capacity of an over-long buffer - keeps its old value. Instances: two-pass U8 into a cropped view, two-pass U16 exact, horizontal-only with crop top > 0 into an over-long buffer, vertical-only SSE4.1 into a cropped view, horizontal-only SSE4.1 5 rows into a cropped view.",
+        "text": "P level: Resizer::resize_typed with symbolic source AND symbolic old destination buffer; after Ok the destination rectangle equals the composed specification of the two passes (which never reads the old destination, so a stale pixel is a counterexample) and every component outside the rectangle - surroundings of a mutable cropped view, spare capacity of an over-long buffer - keeps its old value. Instances: two-pass U8 into a cropped view, two-pass U16 exact, horizontal-only with crop top > 0 into an over-long buffer, horizontal-only SSE4.1 5 rows from a taller source into a cropped view with parent rows below it; thorough adds vertical-only portable / SSE4.1 instances.",
         "note": "Sizes <= 6; real window bounds, synthetic power-of-two weights (arithmetic is decided at K level); scratch buffers of the Resizer have symbolic content; alpha operations and conversions are covered by C06/C17 whole-row checks; thread counts outside.",
         "design": "5/C05",
     },
     "C06": {
         "text": "Public MulDiv typed entry points (in-place and two-image) on a 1xK row; one pixel at an enumerated lane position carries symbolic (colour.., alpha): U8x2/U8x4 all 65536 pairs, U16x2/U16x4 multiply all 2^32 pairs, per back-end {portable, SSE4.1, AVX2}: multiply == round(c*a/max) exactly; divide is one of the two neighbours of c*max/a, saturated at max, alpha 0 -> 0; alpha component unchanged; fixed background pixels also checked; the 7 pixel types without alpha are rejected and left untouched. 16-bit divide on the portable path: alpha sliced ([0,255] whole, 16-wide slices elsewhere: 3 quick, 256 seeded thorough).",
-        "note": "Known findings (listed, still reported as KNOWN-FINDING): 16-bit SIMD divide does not saturate (U16x2) / mishandles quotients >= 2^31 (U16x2, U16x4). The portable alpha=1 overflow was fixed (0f2e647). Float alpha types outside; lane positions: first, last of chunk, remainder (all in thorough).",
+        "note": "Known findings (listed, still reported as KNOWN-FINDING): 16-bit SIMD divide does not saturate (U16x2) / mishandles quotients >= 2^31 (U16x2; U16x4 - seen in the thorough tier only, its SIMD divide harnesses need 5-12 min each). The portable alpha=1 overflow was fixed (0f2e647). Float alpha types outside; lane positions: first, last of chunk, remainder (all in thorough).",
         "design": "5/C06",
     },
     "C07": {
